@@ -136,7 +136,7 @@ def readFields (P : Params) (S : Schema) (total : Nat) (fuel : Nat) (sd : SDesc)
 def readField (P : Params) (S : Schema) (total : Nat) (fuel : Nat) (f : Field) (v : TVal) (tail : Nat) (slot : Val) :
     Outcome Val :=
   if specFixed f.ty.tt > 0 then (readFixed f.ty.tt v).mapv (wrapPtr f.ty)
-  else if f.nocopy then (readStr f.ty.isBinary true total tail v).mapv (wrapPtr f.ty)
+  else if f.nocopy then (readStr f.ty.deref.isBinary true total tail v).mapv (wrapPtr f.ty)
   else (readVal P S total fuel f.ty.deref v tail (freshTarget S f.ty slot)).mapv (wrapPtr f.ty)
 /-- one element / key / value -/
 def readSlot (P : Params) (S : Schema) (total : Nat) (fuel : Nat) (t : Ty) (x : TVal) (tail : Nat) (slot : Val) :
